@@ -427,7 +427,7 @@ func (c *Corpus) runChunk(reqs []Req, res []Res, chunk []int, o RunOpts, w int) 
 				memMB *= 3 // the race detector's shadow memory
 			}
 		}
-		guard, runErr := harness.RunGuarded(cmd, memMB, time.Duration(o.WallSeconds)*time.Second)
+		guard, runErr := harness.RunGuardedIdle(cmd, memMB, time.Duration(o.WallSeconds)*time.Second)
 		c.raceMu.Lock()
 		if guard.PeakMB > c.PeakMB {
 			c.PeakMB = guard.PeakMB
@@ -506,6 +506,8 @@ func (c *Corpus) runChunk(reqs []Req, res []Res, chunk []int, o RunOpts, w int) 
 		}
 		cpuLimit := time.Duration(o.CPUSeconds) * time.Second
 		switch {
+		case guard.Blocked:
+			why = fmt.Sprintf("the child process was blocked: alive for %v without using %v of processor time (every goroutine waiting for something that does not come?); goroutine dump follows", harness.IdleWindow, harness.IdleCPU)
 		case guard.WallKilled:
 			why = "WATCHDOG: wall-clock limit hit (inconclusive)"
 		case guard.MemKilled:
